@@ -1,4 +1,6 @@
 pub mod matchers;
 pub mod store;
+pub mod streams;
+pub mod streams_chains;
 pub mod views;
 pub mod util;
